@@ -195,6 +195,7 @@ pub fn run_topic(topic: &str, cx: &mut Ctx) -> bool {
         "fold" => fold(cx),
         "refs" => refs(cx),
         "cycles" => cycles(cx),
+        "fstrbrace" => fstrbrace(cx),
         "parse_eval" => parse_eval(cx),
         "total" => total(cx),
         "conv" => conv(cx),
@@ -219,8 +220,11 @@ pub enum Cls {
     HardArg, // a call whose argument fails
     ProgErr, // a stored program that fails
     ProgT,  // a stored program that is truthy
+    FStrErr, // an f-string whose segment fails
+    MapKey, // a map literal whose key is not a string (built at run time)
+    MethodRef, // a method selected but not called
 }
-pub const CLASSES: &[Cls] = &[Cls::T, Cls::F, Cls::Truthy, Cls::Falsy, Cls::ErrO, Cls::ErrA, Cls::HardArg, Cls::ProgErr, Cls::ProgT];
+pub const CLASSES: &[Cls] = &[Cls::T, Cls::F, Cls::Truthy, Cls::Falsy, Cls::ErrO, Cls::ErrA, Cls::HardArg, Cls::ProgErr, Cls::ProgT, Cls::FStrErr, Cls::MapKey, Cls::MethodRef];
 
 fn cls_value(c: Cls, r: &mut Rng) -> Option<V> {
     Some(match c {
@@ -325,6 +329,9 @@ fn logic_case(cx: &mut Ctx, shape: &T, classes: &[Cls], as_calls: bool) {
         let t = fill_atoms(shape, &|k| match classes[k - 1] {
             Cls::HardArg => call(&format!("c{}", k), vec![bin("/", lit(V::Int(1)), id("zero"))]),
             Cls::ProgErr | Cls::ProgT => id(&format!("p{}", k)),
+            Cls::FStrErr => T::FStr(vec![Seg::Lit("x".into()), Seg::Expr(call(&format!("c{}", k), vec![]))]),
+            Cls::MapKey => T::Map(vec![(call(&format!("c{}", k), vec![]), lit(V::Int(1)))]),
+            Cls::MethodRef => sel(call(&format!("c{}", k), vec![]), "size"),
             _ => call(&format!("c{}", k), vec![]),
         });
         let mut c = cx.case(t);
@@ -339,9 +346,14 @@ fn logic_case(cx: &mut Ctx, shape: &T, classes: &[Cls], as_calls: bool) {
                 }
                 _ => {}
             }
-            let spec = match cls_value(if matches!(cl, Cls::HardArg | Cls::ProgErr | Cls::ProgT) { Cls::Truthy } else { *cl }, &mut rng) {
-                Some(v) => serde_json::json!({"o":"ok","v":v.to_json()}),
-                None => serde_json::json!({"o":"err","c": if *cl == Cls::ErrA {"absent"} else {"other"}}),
+            let spec = match cl {
+                Cls::FStrErr => serde_json::json!({"o":"err","c": if rng.chance(1, 2) {"absent"} else {"other"}}),
+                Cls::MapKey => serde_json::json!({"o":"ok","v":V::Int(1).to_json()}),
+                Cls::MethodRef => serde_json::json!({"o":"ok","v":V::List(vec![V::Int(1)]).to_json()}),
+                _ => match cls_value(if matches!(cl, Cls::HardArg | Cls::ProgErr | Cls::ProgT) { Cls::Truthy } else { *cl }, &mut rng) {
+                    Some(v) => serde_json::json!({"o":"ok","v":v.to_json()}),
+                    None => serde_json::json!({"o":"err","c": if *cl == Cls::ErrA {"absent"} else {"other"}}),
+                },
             };
             c.funcs.insert(format!("c{}", i + 1), spec);
         }
@@ -353,6 +365,9 @@ fn logic_case(cx: &mut Ctx, shape: &T, classes: &[Cls], as_calls: bool) {
         let t = fill_atoms(shape, &|k| match classes[k - 1] {
             Cls::ErrO | Cls::ProgErr => bin("/", id(&format!("v{}", k)), lit(V::Int(0))),
             Cls::HardArg => call("size", vec![id(&format!("v{}", k))]),
+            Cls::FStrErr => T::FStr(vec![Seg::Lit("x".into()), Seg::Expr(bin("/", id(&format!("v{}", k)), lit(V::Int(0))))]),
+            Cls::MapKey => T::Map(vec![(id(&format!("v{}", k)), lit(V::Int(1)))]),
+            Cls::MethodRef => sel(id(&format!("v{}", k)), "size"),
             _ => id(&format!("v{}", k)),
         });
         let mut c = cx.case(t);
@@ -361,8 +376,11 @@ fn logic_case(cx: &mut Ctx, shape: &T, classes: &[Cls], as_calls: bool) {
                 (_, Some(v)) => {
                     c.bind.insert(format!("v{}", i + 1), v.clone());
                 }
-                (Cls::ErrO, None) | (Cls::ProgErr, None) => {
+                (Cls::ErrO, None) | (Cls::ProgErr, None) | (Cls::FStrErr, None) | (Cls::MapKey, None) => {
                     c.bind.insert(format!("v{}", i + 1), V::Int(1));
+                }
+                (Cls::MethodRef, None) => {
+                    c.bind.insert(format!("v{}", i + 1), V::List(vec![V::Int(1)]));
                 }
                 (Cls::ProgT, None) => {
                     c.bind.insert(format!("v{}", i + 1), V::Int(2));
@@ -639,6 +657,65 @@ pub struct ExprGen {
     pub matches: bool,
 }
 
+/// Braces inside a literal that is nested in an embedded expression of an f-string are outside what rscel's
+/// f-string scanner supports (recorded finding, probed by the topic `fstrbrace`): generated trees avoid them.
+fn debrace(t: &T) -> T {
+    match t {
+        T::FStr(segs) => T::FStr(
+            segs.iter()
+                .map(|s| match s {
+                    Seg::Lit(l) => Seg::Lit(l.replace('{', "(").replace('}', ")")),
+                    Seg::Expr(e) => Seg::Expr(debrace(e)),
+                })
+                .collect(),
+        ),
+        T::Lit(V::Str(x)) => T::Lit(V::Str(x.replace('{', "(").replace('}', ")"))),
+        T::Lit(_) | T::Id(_) => t.clone(),
+        T::Un { op, n, e } => T::Un { op: *op, n: *n, e: Box::new(debrace(e)) },
+        T::Paren(e) => T::Paren(Box::new(debrace(e))),
+        T::Sel { e, f } => T::Sel { e: Box::new(debrace(e)), f: f.clone() },
+        T::Bin { op, l, r } => T::Bin { op: op.clone(), l: Box::new(debrace(l)), r: Box::new(debrace(r)) },
+        T::Tern { c, a, b } => T::Tern { c: Box::new(debrace(c)), a: Box::new(debrace(a)), b: Box::new(debrace(b)) },
+        T::List(es) => T::List(es.iter().map(debrace).collect()),
+        T::Map(kv) => T::Map(kv.iter().map(|(k, v)| (debrace(k), debrace(v))).collect()),
+        T::Idx { e, i } => T::Idx { e: Box::new(debrace(e)), i: Box::new(debrace(i)) },
+        T::Call { f, args } => T::Call { f: f.clone(), args: args.iter().map(debrace).collect() },
+        T::MCall { r, f, args } => T::MCall { r: Box::new(debrace(r)), f: f.clone(), args: args.iter().map(debrace).collect() },
+        T::Match { e, cases } => T::Match {
+            e: Box::new(debrace(e)),
+            cases: cases
+                .iter()
+                .map(|(p, e)| {
+                    (
+                        match p {
+                            Pat::Cmp(op, v) => Pat::Cmp(op.clone(), debrace(v)),
+                            other => other.clone(),
+                        },
+                        debrace(e),
+                    )
+                })
+                .collect(),
+        },
+    }
+}
+
+/// C14 (recorded finding): an embedded expression of an f-string that contains a brace inside a string literal
+/// or inside a nested f-string.
+pub fn fstrbrace(cx: &mut Ctx) {
+    let probes: Vec<T> = vec![
+        T::FStr(vec![Seg::Expr(lit(V::Str("}".into())))]),
+        T::FStr(vec![Seg::Expr(lit(V::Str("{".into())))]),
+        T::FStr(vec![Seg::Lit("a".into()), Seg::Expr(T::FStr(vec![Seg::Lit("}".into()), Seg::Expr(id("x"))]))]),
+        T::FStr(vec![Seg::Expr(T::FStr(vec![Seg::Lit("{".into()), Seg::Expr(id("x"))])), Seg::Lit("b".into())]),
+    ];
+    for t in probes {
+        let mut c = cx.case(t);
+        c.bind.insert("x".into(), V::Str("v".into()));
+        c.forms = forms(&["bound"]);
+        cx.out(c);
+    }
+}
+
 impl ExprGen {
     pub fn leaf(&self, r: &mut Rng) -> T {
         match r.below(10) {
@@ -709,7 +786,7 @@ impl ExprGen {
             }
             23 if self.fstrings => {
                 let n = 1 + r.below(3);
-                T::FStr((0..n).map(|_| if r.chance(1, 2) { Seg::Lit(r.pick_str(&["a", "{", "}", " x", "é", "'"]).to_string()) } else { Seg::Expr(self.expr(r, d.min(1))) }).collect())
+                T::FStr((0..n).map(|_| if r.chance(1, 2) { Seg::Lit(r.pick_str(&["a", "{", "}", " x", "é", "'"]).to_string()) } else { Seg::Expr(debrace(&self.expr(r, d.min(1)))) }).collect())
             }
             24 if self.matches => {
                 let ncase = 1 + r.below(2);
